@@ -220,15 +220,47 @@ func (ls *liveSession) Close() {
 
 var quietOnce sync.Once
 
-type nullOutputter struct{}
+// ringOutputter keeps the last lines bigslice/bigmachine logged, so that a violation can carry
+// the library's own account of what happened (lost machines, retries, task errors).
+type ringOutputter struct {
+	mu    sync.Mutex
+	lines []string
+}
 
-func (nullOutputter) Level() log.Level                    { return log.Off }
-func (nullOutputter) Output(int, log.Level, string) error { return nil }
+func (r *ringOutputter) Level() log.Level { return log.Info }
+func (r *ringOutputter) Output(_ int, lvl log.Level, s string) error {
+	r.mu.Lock()
+	if len(r.lines) >= 400 {
+		r.lines = r.lines[100:]
+	}
+	if len(s) > 300 {
+		s = s[:300]
+	}
+	r.lines = append(r.lines, s)
+	r.mu.Unlock()
+	return nil
+}
+
+var logRing = &ringOutputter{}
+
+// logTail returns the last lines logged that mention losses, errors or retries.
+func logTail(n int) string {
+	logRing.mu.Lock()
+	defer logRing.mu.Unlock()
+	var out []string
+	for i := len(logRing.lines) - 1; i >= 0 && len(out) < n; i-- {
+		l := logRing.lines[i]
+		if strings.Contains(l, "lost") || strings.Contains(l, "error") || strings.Contains(l, "retry") || strings.Contains(l, "probation") || strings.Contains(l, "stopped") {
+			out = append(out, strings.TrimSpace(l))
+		}
+	}
+	return strings.Join(out, " || ")
+}
 
 func quietLogs() {
 	quietOnce.Do(func() {
 		if os.Getenv("VERIF_LOGS") == "" {
-			log.SetOutputter(nullOutputter{})
+			log.SetOutputter(logRing)
 		}
 	})
 }
